@@ -201,7 +201,9 @@ def plan(tier, seed):
     jobs += [('docs', k, 16, 2 if q else 3) for k in range(16)]
     jobs += [('colltags', k, 8) for k in range(8)]
     jobs += [('boundary', k, 6) for k in range(6)]
-    jobs += [('trees', k, 32, 4 if q else 5, 1 if q else 2) for k in range(32)]
+    jobs += [('trees', k, 32, 4, 1 if q else 2) for k in range(32)]
+    if not q:
+        jobs += [('trees', k, 256, 5, 1) for k in range(256)]
     jobs += [('fold', 3 if q else 5, k, 32) for k in range(32)]
     for i in range(len(SHAPES)):
         jobs.append(('ill', 'py', i, 6 if q else 8))
